@@ -112,6 +112,12 @@ pub fn run_seq(c: &SeqCase) -> CaseResult {
                 .with("shrinking", got.len() > want.len())
                 .with("duplicate_entry", list.len() != want.len()));
         }
+        // (1b) every announced claim lives exactly one peer timeout from this announcement
+        for (peer, r, expiry) in table.verif_claims() {
+            if peer == p && expiry != now + PEER_TO {
+                return Err(Fail::new("wrong_claim_lifetime", format!("after step {} claim {} of the announcing peer expires at +{} s, expected +{} s (peer timeout)", step, r, expiry - now, PEER_TO)));
+            }
+        }
         // (2) no lookup resolves to a peer through a claim that peer does not (or no longer) announce; decisions cached
         // from still-announced claims may legitimately persist for the switch timeout (that part is C11's)
         for a in 0..4 {
@@ -152,6 +158,16 @@ pub fn run_seq(c: &SeqCase) -> CaseResult {
     table.remove_claims(p);
     if table.verif_claims().iter().any(|(peer, _, _)| *peer == p) || table.verif_cache().iter().any(|(_, peer, _)| *peer == p) {
         return Err(Fail::new("not_removed", "claims or cached decisions point at a removed peer"));
+    }
+    // (5) removal of a peer that announced nothing but from which addresses were learned (switch mode)
+    table.cache(probe_addr(3), p);
+    table.cache(probe_addr(0), q);
+    table.remove_claims(p);
+    if table.verif_cache().iter().any(|(_, peer, _)| *peer == p) {
+        return Err(Fail::new("learned_not_removed", "a learned address still points at a removed peer that had no claims"));
+    }
+    if !table.verif_cache().iter().any(|(_, peer, _)| *peer == q) {
+        return Err(Fail::new("learned_lost", "removing one peer dropped an address learned from another"));
     }
     Ok(class)
 }
